@@ -433,7 +433,7 @@ def main():
             obligations=obligations, discharged=discharged,
             checker_cmd='; '.join(r.get('cmd', 'cargo kani --harness <h>') for r in results),
             trusted_base=(notes.get('trusted_base') or []) + U.TRUSTED_BASE if hasattr(U, 'TRUSTED_BASE') else [],
-            explanation=notes.get('explanation', ''),
+            explanation=notes.get('explanation') or (U.CLAIMS.get(prop, {}).get('text', '') if hasattr(U, 'CLAIMS') else ''),
             tagged_clauses=clause_count,
             functions_under_contract=fn_under_contract,
             backends=backends, smt_ms=smt_ms, cbmc_s=round(cbmc_s, 1),
